@@ -1,5 +1,100 @@
-"""Assumed contracts for pandas (filled in with the block-reduction properties)."""
+"""Assumed contracts for pandas, as far as verde uses it (DataFrame construction / column access;
+groupby-aggregate is modelled at the set level in prelude_groupby)."""
+from collections import OrderedDict
+
+from .arr import SymArr, as_array, new_array
+from .core import Unsupported, ctx, is_sym
+
+
+def _use(name):
+    ctx().used_prelude.add("pandas." + name)
 
 
 class SymSeries:
-    pass
+    def __init__(self, values, name=None, index=None):
+        self.values = as_array(values) if not isinstance(values, SymArr) else values
+        self.name = name
+        self.index = index
+
+    def values_view(self):
+        return self.values
+
+    @property
+    def shape(self):
+        return self.values.shape
+
+    @property
+    def size(self):
+        return self.values.size
+
+    def ravel(self):
+        return self.values.ravel()
+
+
+class SymDataFrame:
+    """pd.DataFrame(dict_of_columns[, columns=order]): named 1-D columns of one common length."""
+
+    def __init__(self, data=None, columns=None, index=None):
+        _use("DataFrame")
+        c = ctx()
+        self.cols = OrderedDict()
+        items = list(data.items()) if isinstance(data, dict) else None
+        if items is None:
+            raise Unsupported("DataFrame from %r" % type(data))
+        if columns is not None:
+            order = list(columns)
+            d = dict(items)
+            if set(order) != set(d):
+                raise Unsupported("DataFrame(columns=...) selecting a subset")
+            items = [(k, d[k]) for k in order]
+        n = None
+        for k, v in items:
+            arr = v.values if isinstance(v, SymSeries) else as_array(v)
+            if arr.ndim != 1:
+                raise ValueError("Per-column arrays must each be 1-dimensional")
+            if n is None:
+                n = arr.shape[0]
+            elif not (arr.shape[0] is n):
+                ok = arr.shape[0] == n
+                if ok is False:
+                    raise ValueError("All arrays must be of the same length")
+                if ok is not True and not c.in_spec:
+                    c.oblige("DataFrame.same_length[%s]" % c.fresh_name("df"), ok, kind="domain")
+            self.cols[k] = arr
+        self.nrows = n if n is not None else 0
+
+    @property
+    def columns(self):
+        return list(self.cols.keys())
+
+    def __getitem__(self, key):
+        if isinstance(key, (str, tuple)) and key in self.cols:
+            return SymSeries(self.cols[key], name=key)
+        raise KeyError(key)
+
+    def __len__(self):
+        from .core import concrete_value
+
+        v = concrete_value(self.nrows) if is_sym(self.nrows) else self.nrows
+        if v is None:
+            raise Unsupported("len() of a DataFrame with a symbolic number of rows")
+        return int(v)
+
+    def dropna(self):
+        raise Unsupported("DataFrame.dropna")
+
+    def groupby(self, key):
+        from .prelude_groupby import SymGroupBy
+
+        return SymGroupBy(self, key)
+
+
+class _PD:
+    DataFrame = SymDataFrame
+    Series = SymSeries
+
+    def __getattr__(self, name):
+        raise Unsupported("pandas.%s has no assumed contract in the prelude" % name)
+
+
+PD = _PD()
